@@ -382,6 +382,7 @@ func init() {
 		Streams: []Stream{
 			{Name: "repeat", N: func(c *Ctx) int { return c15Cases(c) * c.NBatch }, Run: c15Run},
 			{Name: "twin-texts", N: func(c *Ctx) int { return twinN() }, Run: twinRun, Exhaustive: true},
+			{Name: "static-error-texts", N: misspelledN, Run: c15Misspelled, Exhaustive: true},
 		},
 	})
 	batchOverride["C15"] = func(tier, mode string) int {
